@@ -55,7 +55,7 @@ Vocab == <<
     L("|", TRUE, FALSE, FALSE, FALSE, TRUE, FALSE), L("a|b", FALSE, FALSE, FALSE, FALSE, TRUE, FALSE), L("||", TRUE, FALSE, FALSE, FALSE, TRUE, FALSE),
     L("`", FALSE, FALSE, TRUE, FALSE, FALSE, FALSE), L("``", FALSE, FALSE, TRUE, FALSE, FALSE, FALSE), L("a`b", FALSE, FALSE, TRUE, FALSE, FALSE, FALSE),
     L("*", TRUE, FALSE, FALSE, FALSE, FALSE, FALSE), L("2*3", FALSE, FALSE, FALSE, TRUE, FALSE, FALSE), L("a*b", FALSE, FALSE, FALSE, TRUE, FALSE, FALSE),
-    L("**", TRUE, FALSE, FALSE, FALSE, FALSE, FALSE), L("f(*x)", FALSE, FALSE, FALSE, TRUE, FALSE, FALSE),
+    In("**"), In("__"), L("f(*x)", FALSE, FALSE, FALSE, TRUE, FALSE, FALSE),       \* two delimiter characters between spaces: flanking nothing, and too few for a thematic break
     (* underscores: runs inside a word can neither open nor close; a run at the start of a word could open (so at most one such lexeme,
        counted with the attached stars), and there is nothing in the vocabulary that could close it *)
     In("=-="), In("-="), In("=-"),           \* no setext underline (mixed characters), no list marker (no space), no thematic break
@@ -73,7 +73,13 @@ vars == <<lines, cur, ticks, stars, phase>>
 
 (* lexemes made of "=" only: a line made of nothing else would be a setext underline; followed by other text it is inert *)
 UnderlineLike == {"=", "=="}
+(* a line made of three or more "*" (or "_") and spaces only is a thematic break *)
+OnlyChar(t, c) == \A i \in 1..Len(t) : SubSeq(t, i, i) = c
+RECURSIVE SumLen(_, _)
+SumLen(ln, k) == IF k > Len(ln) THEN 0 ELSE Len(Vocab[ln[k]].t) + SumLen(ln, k + 1)
+HrLike(ln) == \E c \in {"*", "_", "-"} : (\A i \in DOMAIN ln : OnlyChar(Vocab[ln[i]].t, c)) /\ SumLen(ln, 1) >= 3
 LineOk(ln) == /\ ln # << >>
+              /\ ~HrLike(ln)
               /\ (\E i \in DOMAIN ln : Vocab[ln[i]].t \notin UnderlineLike)
               /\ ~Vocab[ln[Len(ln)]].eb
               /\ ((\E i \in DOMAIN ln : Vocab[ln[i]].pp) => (\E i \in DOMAIN ln : Vocab[ln[i]].wd))
